@@ -122,28 +122,35 @@ type TyCase struct {
 
 func (t TyCase) key() string { return fmt.Sprintf("%s/%d/%d", t.Boundary, t.Ty, t.Val) }
 
+// typePrelude: the class fixture of the type matrix, the typed slots / parameters / returns per declared type.
+func typePrelude(sb *strings.Builder, tag string) {
+	at := func(s string) string { return strings.ReplaceAll(s, "@", tag) }
+	tys := tyDecls()
+	fmt.Fprintf(sb, "interface I%s {}\nclass K%s implements I%s {}\nclass L%s extends K%s {}\nclass M%s {}\nclass J%s implements I%s {}\n", tag, tag, tag, tag, tag, tag, tag, tag)
+	fmt.Fprintf(sb, "function tg%s($v) { if (is_null($v)) { return \"null\"; } if (is_int($v)) { return \"int\"; } if (is_string($v)) { return \"str\"; } if (is_float($v)) { return \"float\"; } if (is_bool($v)) { return \"bool\"; } if (is_array($v)) { return \"array\"; } if (is_object($v)) { return get_class($v); } return \"other\"; }\n", tag)
+	fmt.Fprintf(sb, "class TP%s {\n", tag)
+	for i, t := range tys {
+		fmt.Fprintf(sb, "  public %s $p_%d;\n  public static %s $s_%d;\n", at(t.Src), i, at(t.Src), i)
+		fmt.Fprintf(sb, "  public function mp_%d(%s $x) { return tg%s($x); }\n", i, at(t.Src), tag)
+		fmt.Fprintf(sb, "  public static function sp_%d(%s $x) { return tg%s($x); }\n", i, at(t.Src), tag)
+		fmt.Fprintf(sb, "  public function mr_%d($x): %s { return $x; }\n", i, at(t.Src))
+	}
+	fmt.Fprintf(sb, "  public function look($n) { return tg%s($this->$n); }\n", tag)
+	sb.WriteString("}\n")
+	for i, t := range tys {
+		fmt.Fprintf(sb, "class CT%s_%d { public $got = \"unset\"; public function __construct(%s $x) { $this->got = tg%s($x); } }\n", tag, i, at(t.Src), tag)
+		fmt.Fprintf(sb, "function fp%s_%d(%s $x) { return tg%s($x); }\n", tag, i, at(t.Src), tag)
+		fmt.Fprintf(sb, "function fr%s_%d($x): %s { return $x; }\n", tag, i, at(t.Src))
+		fmt.Fprintf(sb, "class PP%s_%d { public function __construct(public %s $x) { } }\n", tag, i, at(t.Src))
+	}
+}
+
 func typeScript(tag string, cases []TyCase) string {
 	at := func(s string) string { return strings.ReplaceAll(s, "@", tag) }
 	tys, vals := tyDecls(), valDecls()
 	var sb strings.Builder
 	sb.WriteString("<?php\n")
-	fmt.Fprintf(&sb, "interface I%s {}\nclass K%s implements I%s {}\nclass L%s extends K%s {}\nclass M%s {}\nclass J%s implements I%s {}\n", tag, tag, tag, tag, tag, tag, tag, tag)
-	fmt.Fprintf(&sb, "function tg%s($v) { if (is_null($v)) { return \"null\"; } if (is_int($v)) { return \"int\"; } if (is_string($v)) { return \"str\"; } if (is_float($v)) { return \"float\"; } if (is_bool($v)) { return \"bool\"; } if (is_array($v)) { return \"array\"; } if (is_object($v)) { return get_class($v); } return \"other\"; }\n", tag)
-	fmt.Fprintf(&sb, "class TP%s {\n", tag)
-	for i, t := range tys {
-		fmt.Fprintf(&sb, "  public %s $p_%d;\n  public static %s $s_%d;\n", at(t.Src), i, at(t.Src), i)
-		fmt.Fprintf(&sb, "  public function mp_%d(%s $x) { return tg%s($x); }\n", i, at(t.Src), tag)
-		fmt.Fprintf(&sb, "  public static function sp_%d(%s $x) { return tg%s($x); }\n", i, at(t.Src), tag)
-		fmt.Fprintf(&sb, "  public function mr_%d($x): %s { return $x; }\n", i, at(t.Src))
-	}
-	fmt.Fprintf(&sb, "  public function look($n) { return tg%s($this->$n); }\n", tag)
-	sb.WriteString("}\n")
-	for i, t := range tys {
-		fmt.Fprintf(&sb, "class CT%s_%d { public $got = \"unset\"; public function __construct(%s $x) { $this->got = tg%s($x); } }\n", tag, i, at(t.Src), tag)
-		fmt.Fprintf(&sb, "function fp%s_%d(%s $x) { return tg%s($x); }\n", tag, i, at(t.Src), tag)
-		fmt.Fprintf(&sb, "function fr%s_%d($x): %s { return $x; }\n", tag, i, at(t.Src))
-		fmt.Fprintf(&sb, "class PP%s_%d { public function __construct(public %s $x) { } }\n", tag, i, at(t.Src))
-	}
+	typePrelude(&sb, tag)
 	// cell: $f performs the crossing and returns the tag of what arrived; $after reads the slot back
 	fmt.Fprintf(&sb, "function tcell%s($id, $f, $after) {\n  try { $v = $f(); $r = \"ok=\" . $v; } catch (\\Throwable $e) { $r = \"denied=\" . get_class($e); }\n  echo \"\\n#\", $id, \":\", $r, \":\", $after(), \"\\n\";\n}\n", tag)
 	for id, c := range cases {
